@@ -289,6 +289,15 @@ theorem pool_close_ends_blocked_clients (s : St) (hk : s.cfg.kind = .pool) (hcl 
       · rename_i h; split <;> simpa using h
     simp only [endServe, release, closeConn]; split <;> simp_all
 
+/-- ... for the code as it is: the hypothesis `closeUnblocks = true` is the measured obligation -/
+theorem code_pool_close_ends_blocked_clients (s : St) (hk : s.cfg.kind = .pool) (hcl : s.closedFlag = false)
+    (hc : s.cfg.closeUnblocks = Gen.Srv.poolCloseUnblocksWorkers) (hh : ∀ k ∈ s.ids, hookHolds (s.cli k) = false) :
+    ∃ s', step s .serverClose = .ok (s', .none) ∧ s'.listening = false ∧ s'.blocked = [] ∧
+      ∀ k, (s.cli k).inFd = true → (s'.cli k).shut = true ∧ (s'.cli k).connOpen = false ∧ (s'.cli k).inFd = false := by
+  obtain ⟨s', h1, h2, _, h4, _, h6⟩ :=
+    pool_close_ends_blocked_clients s hk hcl (hc.trans pool_close_unblocks_workers) hh
+  exact ⟨s', h1, h2, h4, fun k hk' => ⟨(h6 k hk').1, (h6 k hk').2.2.1, (h6 k hk').2.1⟩⟩
+
 /-- the witness `connect 1; call 1; connect 2; raw 2 [incomplete frame]; serverClose` on a pool of two workers.  With the
 code that joins its workers first (`closeUnblocks := false`) `close()` does not return (and, not modelled further: the
 listener is closed, nobody has seen end-of-stream, no hook has run); with the repaired order it returns and both
